@@ -37,7 +37,7 @@ func (c02) Meta() fw.Meta {
 
 func (c02) Cases(tier string) int {
 	if tier == "thorough" {
-		return 60000
+		return 1000000
 	}
 	return 2400
 }
